@@ -22,8 +22,9 @@ def run(res):
                         "{1,3}, min_size {1, n, n+1, 2n+1}, shots {1,2,5}; constructors run in a child process with a 20 s limit (termination)",
                         "evaluations": n, "distinct": n, "rule": "distinct (layout, seed) pairs, each running ~120 wrapper constructions",
                         "samples": [{"labels": [0, 0, 2], "classes": 3, "wrapper": "Oversampling(exact)"}, {"labels": [1, 0, 1, 2, 2, 0, 1], "percent": 0.29}]})
-    res.notes.append("proved: PercentFilterWrapper, SubsetWrapper (index and percent ranges), RepeatWrapper, ShuffleWrapper constructors against "
-                     "their promised index sequence, termination of OversamplingWrapper(exact); bounded only: class filter, sort-by-class, "
+    res.notes.append("proved: PercentFilterWrapper, SubsetWrapper (index and percent ranges), RepeatWrapper, ShuffleWrapper, ClassFilterWrapper constructors "
+                     "against their promised index sequence, SortByClassWrapper (strict (class, position) order = stable sort, no duplicate, every "
+                     "labelled sample present), termination of OversamplingWrapper(exact); bounded only: "
                      "intra-class shuffle, few-shot, class-wise subset, oversampling balance (multiset statements over numpy/torch code). "
                      "int(p * n) is evaluated on reals (float rounding of the percent product is not modelled). Label domain: classes in "
                      "[0, C); -1 (unlabeled) only for OversamplingWrapper(multiply) and the range wrappers")
